@@ -75,5 +75,17 @@ CHECKS.update({
   text="Rule sets of <=3 rules of <=4 nodes over 14 byte-mode atoms (incl. [\\x80-\\xbf], [\\xc0-\\xff], \\xe9, [^a]) with relative priorities; for every set shiftdfa's packer accepts, every byte string of length <=4 over {a,b,0x7f,0x80,0xbf,0xc3,0xff} is scanned by the shift-DFA scanner and by lex.Tables.Scan on tables compiled from the same rules: length and token must agree.",
   note="Tables are rebuilt from the same rules exactly as shiftdfa.Compile does (it does not export them).",
   design="§5.C24"),
+ "C12": dict(
+  category="exploration",
+  technique="bounded exhaustive enumeration of byte strings and of all 1-/2-edit mutations of malformed seed texts through the shipped lexers; tiling/progress/line oracle",
+  text="Seven shipped lexer configurations (tm, js in three dialects, json, test, simple): every byte string of length <=4 (<=6 thorough) over a 14-byte per-lexer alphabet of interesting bytes, with and without BOM, plus all 1- and 2-edit mutations of 4-8 malformed seed texts (unterminated comment/string/template/regex/code block, BOM+text): Next() reaches EOI within 4*len+8 calls and repeats it, every other token non-empty, tokens in source order without overlap, gaps are exactly whitespace-rule text (after an optional BOM), Line()/Column() = position of the first byte.",
+  note="Generated lexers of enumerated grammars are covered by C11 (same tiling oracle there). Space-rule recognisers are transcribed by hand from each .tm file (justified in internal/shipped).",
+  design="§5.C12"),
+ "C20": dict(
+  category="model_checking",
+  technique="exhaustive enumeration of all well-nested event streams (<=5/6 nodes) into the real tree builder vs reference tree; shipped parsers on exhaustive short inputs and seed mutations",
+  text="(a) 14 shipped event-parser configurations (tm, js, json, test; recovering and not): on every byte string <=4 (5 thorough) and 1-/2-edit seed mutations every reported node lies in [0,len], no two nodes partially overlap and no earlier-reported node strictly contains a later one. (b) every event stream satisfying (a) with <=5 nodes over offsets 0..3 (<=6 over 0..4 thorough), incl. empty and equal ranges, is fed to the unexported builder of parsers/tm/ast through an overlay-added in-package test driver and the resulting tree (parents, sibling order, Next/Child links, node multiset) compared with the reference tree (parent = first later-reported container). (c) tm/ast.Parse and js/ast.Parse compared end to end with the reference tree of their own event streams.",
+  note="The in-package driver is ADDED via go test -overlay (no repo file replaced). states = distinct builder stack configurations, transitions = events fed.",
+  design="§5.C20"),
 })
 NOT_APPLICABLE_REASON = {}
